@@ -69,6 +69,8 @@ def gen_config(rng, escape=False, small=False, kicks=None, tout=None):
         kw["NS_ret"] = rng.choice([0.0, 0.1, 0.5, 1.0, round(rng.random(), 2)])
     if rng.random() < 0.4:
         kw["BH_ret_int"] = rng.choice([1.0, 0.5, 0.0, round(rng.random(), 2)])
+    if rng.random() < 0.4:
+        kw["BH_ret_dyn"] = rng.choice([1.0, 0.5, 0.9, 0.2, round(rng.random(), 2)])
     if rng.random() < 0.3:
         kw["binning_method"] = rng.choice(["split_linear", "split_log", "default"])
     if rng.random() < 0.35:
